@@ -1,4 +1,5 @@
 import CohdlVerif.Lemmas.C01Frag1h
+import CohdlVerif.Lemmas.C01FragW3
 
 /-! C01 - fragment 1: `if` and the simulation claim `sim1` for all statements of the fragment -/
 namespace CohdlVerif.C01
@@ -70,7 +71,10 @@ theorem sim1 (hE : ∀ b s, E b s = execB act cond E (Hf b) s) :
     intro h
     simp only [frag1, Bool.and_eq_true] at h
     exact sim_ite act cond prog Hf E Rf Sf hE c t e k h.1.1 h.1.2 h.2 (iht h.1.1) (ihe h.1.2) (ihk h.2)
-  | while_ c b k _ _ => intro h; simp [frag1] at h
+  | while_ cc b k ihb ihk =>
+    intro h
+    simp only [frag1, Bool.and_eq_true] at h
+    exact sim_while act cond prog Hf E Rf Sf hE cc b k h.1 h.2 (ihb h.1) (ihk h.2)
   | brk => intro h; simp [frag1] at h
   | cont => intro h; simp [frag1] at h
   | ret => intro h; simp [frag1] at h
